@@ -97,7 +97,13 @@ def generate(rng, tier, index):
     if rng.random() < 0.3:
         cfg['constraints']['maxRcritChange'] = 0.005
     ops = W.gen_solve_ops(rng, floor_bound_prob=0.05)
-    return {'kind': 'phases', 'cfg': cfg, 'ops': ops, 'cap': 160}
+    strained = any(cfg['phase_params'][p].get('strain') for p in cfg['phases'])
+    if strained and len(cfg['phases']) > 2:
+        # (the equilibrium aspect-ratio search is expensive: two phases = two worlds instead of six)
+        drop = [p for p in cfg['phases'] if not cfg['phase_params'][p].get('strain')][-1]
+        cfg['phases'] = [p for p in cfg['phases'] if p != drop]
+        cfg['thermo_phase_order'] = [p for p in cfg['thermo_phase_order'] if p != drop]
+    return {'kind': 'phases', 'cfg': cfg, 'ops': ops, 'cap': 70 if strained else 160}
 
 
 _ELEM = {}
